@@ -84,10 +84,9 @@ func checkC13(c *chk.Ctx) {
 		raws = append(raws, string(r))
 	}
 	sort.Strings(raws)
-	stride := 3
-	if c.Thorough() {
-		stride = 1
-	}
+	// (every case in both tiers: a sampled quick tier let a change that breaks one
+	// annotation x cardinality combination through two seeds out of three)
+	stride := 1
 	w, err := work.New()
 	if err != nil {
 		c.Broken("%v", err)
